@@ -647,6 +647,10 @@ func (v *VC) modularCall(callee *ssa.Function, ct *Contract, args []string, bind
 		v.framedHavoc(shortKey(fnKey(callee)), ct, pre, heap)
 	} else if !ct.ModNothing {
 		v.havocAll(heap, false)
+	} else if ct.describesFreshMemory() {
+		// the contract talks about objects the callee allocates: their cells must be free to take
+		// the described values, everything older is unchanged
+		v.havocFramed(heap, false, []modTerm{})
 	} else {
 		v.advanceClock(heap) // the callee may allocate
 	}
@@ -752,6 +756,8 @@ func (v *VC) modularSig(name string, sig *types.Signature, ct *Contract, args []
 		v.framedHavoc(name, ct, pre, heap)
 	} else if !ct.ModNothing {
 		v.havocAll(heap, false)
+	} else if ct.describesFreshMemory() {
+		v.havocFramed(heap, false, []modTerm{})
 	} else {
 		v.advanceClock(heap) // the callee may allocate
 	}
